@@ -545,3 +545,104 @@ func TestVerif_C02_DotSegments(t *testing.T) {
 	r.Require("dot_form_ordinary:hidden-only:allow", 40)
 	r.Require("authorised_handled", 100)
 }
+
+// ---------------------------------------------------------------- capability lists
+
+func TestVerif_C02_DenyStanzas(t *testing.T) {
+	seed := kit.Seed(2)
+	shard, shards := kit.Shard()
+	if shards > 1 && shard > 0 {
+		t.Skip("shard 0 runs the enumeration")
+	}
+	r := kit.NewResult(t, "c02-denystanzas", seed, "namespaces {root, ns1}; every stanza of {capability sets {read}, {update}, {read,update}, {create,update,delete}, {read,list,patch,scan}, all} x deny {absent, first, in the middle, last} x {plain, one capability repeated} plus the old-style policy keyword {read, write, sudo, deny} x capabilities {absent, [deny], [read], [deny,update], [update,deny]} x pattern shape {exact, trailing glob, + segment}, each on its own path in one policy A; policy B grants everything on the same patterns; tokens holding A, A+B (a deny in one policy is not lifted by another policy) and B (control) send read / write / delete / patch / list requests to every stanza's path. Reference: the capabilities of a stanza are a set (order and repetition are irrelevant, the keyword adds read+list / create+read+update+delete+list / the same + sudo), and deny anywhere in it refuses everything on the path. A stanza is non-trivial when it names deny together with something else; distinct by (stanza, token, op)")
+	r.Exhaustive = true
+	defer r.Write(t)
+	x := c02SmallWorld(t, r, seed, 982, false, true, []string{"", "ns1/"})
+	defer x.v.Close()
+	sets := [][]string{{"read"}, {"update"}, {"read", "update"}, {"create", "update", "delete"}, {"read", "list", "patch", "scan"}, append([]string(nil), c02CapNames...)}
+	type stz struct {
+		caps   []string
+		legacy string
+	}
+	var stanzas []stz
+	for _, set := range sets {
+		stanzas = append(stanzas, stz{caps: set})
+		pos := []int{0, len(set)}
+		if len(set) >= 2 {
+			pos = append(pos, len(set)/2)
+		}
+		for _, at := range pos {
+			l := append(append(append([]string(nil), set[:at]...), "deny"), set[at:]...)
+			stanzas = append(stanzas, stz{caps: l})
+			stanzas = append(stanzas, stz{caps: append(append([]string(nil), l...), set[len(set)-1], "deny")})
+		}
+		stanzas = append(stanzas, stz{caps: append(append([]string(nil), set...), set[0])})
+	}
+	for _, kw := range []string{"read", "write", "sudo", "deny"} {
+		for _, caps := range [][]string{nil, {"deny"}, {"read"}, {"deny", "update"}, {"update", "deny"}} {
+			stanzas = append(stanzas, stz{caps: caps, legacy: kw})
+		}
+	}
+	all := append([]string(nil), c02CapNames...)
+	for _, ns := range x.w.NSs {
+		A := &c02Policy{NS: ns, Name: "capsA"}
+		B := &c02Policy{NS: ns, Name: "capsB"}
+		var paths []string
+		for i, s := range stanzas {
+			var pat, path string
+			switch i % 3 {
+			case 0:
+				pat = fmt.Sprintf("kv/data/s%d", i)
+				path = pat
+			case 1:
+				pat = fmt.Sprintf("kv/data/g%d/*", i)
+				path = fmt.Sprintf("kv/data/g%d/x", i)
+			default:
+				pat = fmt.Sprintf("kv/data/+/p%d", i)
+				path = fmt.Sprintf("kv/data/q/p%d", i)
+			}
+			A.Rules = append(A.Rules, c02Rule{Pat: pat, Caps: s.caps, Legacy: s.legacy})
+			B.Rules = append(B.Rules, c02Rule{Pat: pat, Caps: all})
+			paths = append(paths, path)
+		}
+		x.writePolicy(A)
+		x.writePolicy(B)
+		toks := []*c02Tok{
+			x.newTok(ns+"capsA", "live", ns, map[string]any{"policies": []string{"capsA"}}, "", ""),
+			x.newTok(ns+"capsAB", "live", ns, map[string]any{"policies": []string{"capsA", "capsB"}}, "", ""),
+			x.newTok(ns+"capsB", "live", ns, map[string]any{"policies": []string{"capsB"}}, "", ""),
+		}
+		for i, path := range paths {
+			if A.Rules[i].listsDenyWithOthers() {
+				r.Count("stanzas_naming_deny_with_other_capabilities", 1)
+			}
+			for ti, tk := range toks {
+				for _, op := range []string{"read", "update", "delete", "patch", "list"} {
+					x.caseID = fmt.Sprintf("caps:%s:%d:%d:%s", ns, i, ti, op)
+					if !kit.WantCase(x.caseID) {
+						continue
+					}
+					q := &c02Req{Tok: tk, Op: op, Header: ns, Path: path, Why: "capability list matrix"}
+					if op == "list" {
+						if i%3 != 1 {
+							continue
+						}
+						q.Path = fmt.Sprintf("kv/data/g%d/", i)
+					}
+					if op == "update" || op == "patch" {
+						q.Data = map[string]any{"v": x.rng.Canary()}
+					}
+					if ns != "" && (i+ti)%3 == 0 {
+						q.Header, q.Path = "", ns+q.Path
+					}
+					if _, ok := x.do(q, "caps-matrix"); !ok {
+						return
+					}
+				}
+			}
+		}
+	}
+	r.Require("stanzas_naming_deny_with_other_capabilities", 60)
+	r.Require("refused_by_stanza_listing_deny_with_other_capabilities", 600)
+	r.Require("authorised_handled", 800)
+}
